@@ -195,7 +195,7 @@ var specs = map[string]*propSpec{
 		ID: "C17",
 		Rule: "case idx -> one invocation of the freshly built cmd/gmars: flag vector over -s -p -c -l -8 -preset (all six names; half of them with -s/-c added, which must be ignored) -F -r with core size >= 3*length+1 (1/12 of the -s values above 2^16), 1/8 single-warrior, fixed placement 2/3 (any position in 1..s-1, boundary values favoured) or random placement; " +
 			"warrior files are written by the harness from by-construction programs (generator of C03/C08 rendered with random layout) and from hand-made warriors with a known fate (imp, dwarf, instant death, slow death after ~50/3000/24000/40000 cycles, process-queue filler, ...); the first cases pin every preset with a slow-dying warrior against one that sits still, the two preset repairs, and two invocations on a core of 100000 whose outcome depends on a product above 2^32; warrior files are rendered with random layout incl. comments longer than 4 KiB. " +
-			"Process monitor: exit status 0, empty stderr, exactly the expected number of 'wins ties' lines; fixed placement: the lines equal rounds x the outcome of the reference MARS run on the by-construction meanings under the configuration the options describe (preset table written from the README); random placement: wins1+wins2+ties == rounds and ties1 == ties2. " +
+			"Process monitor: exit status 0, empty stderr, exactly the expected number of 'wins ties' lines; fixed placement: the lines equal rounds x the outcome of the reference MARS run on the by-construction meanings under the configuration the options describe (preset table written from the README); random placement: wins1+wins2+ties == rounds and ties1 == ties2, and on cores <= 600 the reference enumerates every placement the tool may draw (2*length..size-length-1): the tallies may only contain outcomes some placement produces (exact when all placements agree). " +
 			"non-trivial = decided (non-tie) battle or non-default flag set; distinct by (flag set, outcome)",
 		Assumptions: append([]string{
 			"the options describe: read/write limits equal to the core size, minimum distance equal to the maximum length; preset values as documented in the README table",
